@@ -178,6 +178,20 @@ def relations(cell, k, x1, x2, dense, fails, feats, seed):
             fails.check_close("diag", k(x1).diagonal(dim1=-1, dim2=-2), full.diagonal(dim1=-1, dim2=-2), 1e-12, 1e-12, "lazy .diagonal()")
             fails.check_close("diag", k(x1, diag=True), full.diagonal(dim1=-1, dim2=-2), 1e-12, 1e-12, "k(x, diag=True)")
             ops += 3
+        with fails.guard("lazy-diagonal-cross"):
+            # the diagonal of a lazily evaluated CROSS-covariance between two different point sets of equal size
+            x1c = x1 + 0.37
+            with S.lazily_evaluate_kernels(False):
+                cross = k(x1, x1c).to_dense()
+            try:
+                lazy_diag = k(x1, x1c).diagonal(dim1=-1, dim2=-2)
+            except RuntimeError as e:
+                if "diag=True only works when x1 == x2" in str(e):
+                    raise util.Skip()  # the derivative kernels refuse this request with exactly this message
+                raise
+            fails.check_close("lazy-diagonal-cross", lazy_diag, cross.diagonal(dim1=-1, dim2=-2), 1e-12, 1e-12,
+                              "K(x1, x2).diagonal() of the lazy tensor != diagonal of the dense cross-covariance (x1 != x2)")
+            ops += 1
         with fails.guard("stacked-blocks"):
             try:
                 B = torch.broadcast_shapes(x1.shape[:-2], x2.shape[:-2])
